@@ -276,8 +276,11 @@ def check(repo, rep, tier):
     if not unknown_paths:
         r3.undecided(loc(first_stmt), RT, "no path with PYSNARK_BACKEND set and no row matching", "unknown-name case not reached")
     elif silent:
-        r3.violation(loc(first_stmt), RT, "path {%s}" % show_path(silent[0]), "an unknown PYSNARK_BACKEND value is not reported before "
-                     "falling back to auto-detection", "env/unknown")
+        hid = [e for e in silent[0].events if e[0] == "hidden-report"]
+        r3.violation(loc(hid[0][2]) if hid else loc(first_stmt), RT, "path {%s}" % show_path(silent[0]),
+                     ("an unknown PYSNARK_BACKEND value is reported only through %s, which Python's default filters do not show: the "
+                      "fall-back to auto-detection is silent" % hid[0][1]) if hid else
+                     "an unknown PYSNARK_BACKEND value is not reported before falling back to auto-detection", "env/unknown")
     else:
         r3.ok(loc(first_stmt), RT, "%d path(s) with an unknown PYSNARK_BACKEND value: reported before auto-detection starts" % len(unknown_paths))
 
